@@ -653,6 +653,7 @@ def run_cfg(cfg, snapshots=False, keep_model=True):
                     'psd_after': [model.PBM[p].PSD.copy() for p in range(P)],
                     'grid_after': [model.PBM[p].PSDbounds.copy() for p in range(P)],
                     'rdfi_after': np.array(model.RdrivingForceIndex).copy(),
+                    'rdfi_start': state['rdfi_before'],
                     'reset_branch': [bool(model.pData.drivingForce[n, p] < 0 and np.all(model.pData.xEqAlpha[n, p, :] == 0)) for p in range(P)],
                     'origBins': [int(model.PBM[p].originalBins) for p in range(P)],
                     'calls': list(fw.log[state['log_pos']:]),
